@@ -232,3 +232,136 @@ def decode(cmd, result):
         if item is not None:
             out.append(item)
     return out
+
+
+# ---- state the package keeps outside its instances -------------------------------------------------------
+# Module-level variables, class-level data attributes and mutable default arguments of the package are state like
+# any other: a world owns a copy of them (captured after every step, re-installed before the next one), so that an
+# execution depends on its own history only, not on what the worker process ran before, and the canonical key
+# covers them.  On the pinned tree these are constants.
+import collections as _collections, types as _types  # noqa: E402
+
+_DATA_TYPES = (bool, int, float, str, bytes, type(None), tuple, list, dict, set, frozenset, bytearray,
+               _collections.OrderedDict, _collections.deque)
+_MUTABLE = (list, dict, set, bytearray, _collections.deque)
+
+
+_MODS = [0, []]
+
+
+def _pkg_modules():
+    if _MODS[0] != len(sys.modules):          # a module was imported since the last look
+        name = PKG.__name__
+        _MODS[1] = [m for n, m in sorted(sys.modules.items()) if m is not None and (n == name or n.startswith(name + "."))]
+        _MODS[0] = len(sys.modules)
+    return _MODS[1]
+
+
+def _is_data(v):
+    return isinstance(v, _DATA_TYPES) or (getattr(type(v), "__module__", "") or "").startswith(PKG.__name__)
+
+
+def _fn_of(v):
+    v = getattr(v, "__func__", v)
+    return v if isinstance(v, _types.FunctionType) else None
+
+
+_SKIP_TYPES = (_types.FunctionType, _types.BuiltinFunctionType, _types.ModuleType, property, staticmethod, classmethod,
+               _types.MethodType, type(__import__("re").compile("")))
+_DEFAULTS = None       # functions of the package that have a mutable default argument (found once: code is fixed)
+
+
+def _find_defaults():
+    out = []
+    for m in _pkg_modules():
+        for k, v in list(vars(m).items()):
+            if isinstance(v, type) and (v.__module__ or "") == m.__name__:
+                for ck, cv in list(vars(v).items()):
+                    fn = _fn_of(cv)
+                    if fn is not None and fn.__defaults__ and any(isinstance(d, _MUTABLE) for d in fn.__defaults__):
+                        out.append((("d", m.__name__, k, ck), fn))
+            elif isinstance(v, _types.FunctionType) and v.__module__ == m.__name__ and v.__defaults__ and \
+                    any(isinstance(d, _MUTABLE) for d in v.__defaults__):
+                out.append((("f", m.__name__, k), v))
+    return out
+
+
+_CAND = {}     # namespace -> (number of names, candidate names): names bound to code/modules/foreign classes at
+               # first sight are not looked at again until the namespace gains or loses a name
+
+
+def _candidates(ns, owner_mod, want_classes, ckey):
+    ent = _CAND.get(ckey)
+    if ent is None or ent[0] != len(ns):
+        names, classes = [], []
+        for k, v in list(ns.items()):
+            if k[:2] == "__":
+                continue
+            if isinstance(v, type):
+                if want_classes and v.__module__ == owner_mod:
+                    classes.append(k)
+                continue
+            if isinstance(v, _SKIP_TYPES):
+                continue
+            names.append(k)
+        ent = (len(ns), names, classes)
+        _CAND[ckey] = ent
+    return ent[1], ent[2]
+
+
+def capture_pkg_state():
+    global _DEFAULTS
+    if _DEFAULTS is None:
+        _DEFAULTS = _find_defaults()
+    out = {}
+    for m in _pkg_modules():
+        mname = m.__name__
+        ns = vars(m)
+        names, classes = _candidates(ns, mname, True, mname)
+        for k in names:
+            v = ns.get(k)
+            if not callable(v) and _is_data(v):
+                out[("m", mname, k)] = v
+        for k in classes:
+            cls = ns.get(k)
+            if not isinstance(cls, type):
+                continue
+            cns = vars(cls)
+            for ck in _candidates(cns, mname, False, (mname, k))[0]:
+                cv = cns.get(ck)
+                if not callable(cv) and _is_data(cv):
+                    out[("c", mname, k, ck)] = cv
+    for key, fn in _DEFAULTS:
+        out[key] = fn.__defaults__
+    return out
+
+
+def install_pkg_state(st):
+    for key, v in st.items():
+        mod = sys.modules.get(key[1])
+        if mod is None:
+            continue
+        if key[0] == "m":
+            setattr(mod, key[2], v)
+        elif key[0] == "c":
+            setattr(getattr(mod, key[2]), key[3], v)
+        elif key[0] == "d":
+            fn = _fn_of(vars(getattr(mod, key[2]))[key[3]])
+            if fn.__defaults__ is not v:
+                fn.__defaults__ = v
+        elif key[0] == "f":
+            if getattr(mod, key[2]).__defaults__ is not v:
+                getattr(mod, key[2]).__defaults__ = v
+
+
+import pickle as _pickle  # noqa: E402
+_PRISTINE = _pickle.dumps(capture_pkg_state(), -1)
+
+
+def pristine_pkg_state():
+    """A fresh copy of the package's import-time state (what a newly started OctoPrint would have)."""
+    return _pickle.loads(_PRISTINE)
+
+
+def reset_pkg_state():
+    install_pkg_state(pristine_pkg_state())
